@@ -138,7 +138,10 @@ def run_tlc(ctx, module, cfg, workers=None, heap="4g", timeout=600, simulate=Non
     m2 = re.search(r"Action property (\S+) is violated", r.out)
     if m2:
         r.violated = m2.group(1)
-    if "Temporal properties were violated" in r.out:
+    mt = re.search(r"Temporal propert(?:y|ies) (.*?) (?:was|were) violated", r.out)
+    if mt:
+        r.violated = "temporal:" + mt.group(1).strip()
+    elif "Temporal properties were violated" in r.out:
         r.violated = "temporal"
     if re.search(r"Deadlock reached", r.out):
         r.violated = "deadlock"
